@@ -4,7 +4,10 @@ package scen
 
 import (
 	"fmt"
+	"net"
+	"runtime"
 	"strings"
+	"sync/atomic"
 	"time"
 
 	"github.com/datastax/cql-proxy/proxy"
@@ -230,7 +233,7 @@ func runC05(c *Ctx) {
 	r.Assume("the retry count is the request's global number of policy-driven retries ('once' = retryCount == 0); fail-over after connection loss does not consume a retry")
 	r.Assume("plan = hosts sorted by address, rotated by an unknown but fixed start (read off the first attempt)")
 	r.Assume("PREPARE requests are treated as idempotent (preparing has no side effect)")
-	r.Require("sequences_run", "decision_calls")
+	r.Require("sequences_run", "decision_calls", "send_gate_cases", "same_host_retry_host_lost_cases")
 
 	// (1) decision functions, exhaustive grid (every shard contributes a slice)
 	decisionFunctions(c)
@@ -340,6 +343,17 @@ func runC05(c *Ctx) {
 		}
 	}
 	r.Exhaustive = false
+	// targeted: the request's connection dies between registration and write
+	for i := 0; i < c.Pick(8, 80); i++ {
+		if c.Mine(i) || c.Replay != nil {
+			sendGate(c, i, i%2 == 0, 2+i%2)
+		}
+	}
+	for i := 0; i < c.Pick(6, 60); i++ {
+		if c.Mine(i+3) || c.Replay != nil {
+			sameHostRetryHostLost(c, i, i%2 == 0, 1+i%3)
+		}
+	}
 }
 
 func replaySeqCase(m map[string]interface{}) seqCase {
@@ -429,4 +443,269 @@ func decisionFunctions(c *Ctx) {
 	r.NonTrivial("decision-functions/writetimeout")
 	r.NonTrivial("decision-functions/unavailable")
 	r.NonTrivial("decision-functions/error")
+}
+
+// sendGate: the request's first Send is held between registration in the connection's pending table and the write; the
+// connection dies meanwhile. The request never reached that host, so it must be answered with the next host's result
+// (both idempotency classes), exactly once.
+func sendGate(c *Ctx, idx int, idem bool, hosts int) {
+	r := c.R
+	cls := "nonidem"
+	if idem {
+		cls = "idem"
+	}
+	scenario := map[string]interface{}{"kind": "send-gate", "idem": idem, "hosts": hosts}
+	c.Step("send-gate idx=%d idem=%v hosts=%d", idx, idem, hosts)
+	bed, err := px.NewBed(px.BedConfig{Hosts: hosts, NumConns: 1, Keyspaces: []string{"ks1"}, ReconnectBase: 50 * time.Millisecond, ReconnectMax: 100 * time.Millisecond})
+	if err != nil {
+		r.Inconc("send-gate: cannot start bed: " + err.Error())
+		return
+	}
+	defer bed.Close()
+	gates := NewGates()
+	armed := false
+	bed.OnHook(func(ev *px.HookEvent) {
+		if ev.Point == "clientconn.send.registered" && armed {
+			gates.Handle(ev, bed.Cluster.HostIdxOfAddr(ev.Remote))
+		} else if ev.Point == "clientconn.closing.flagged" {
+			gates.Handle(ev, bed.Cluster.HostIdxOfAddr(ev.Remote))
+		}
+	})
+	cl, err := bed.ReadyClient(primitive.ProtocolVersion4, "")
+	if err != nil {
+		r.Inconc("send-gate: handshake: " + err.Error())
+		return
+	}
+	defer cl.Close()
+	var keys []string
+	for h := 1; h <= hosts; h++ {
+		keys = append(keys, gateKey("clientconn.send.registered", h))
+	}
+	gates.Arm(keys...)
+	armed = true
+	tok := NewTok()
+	mark := bed.Log.Len()
+	ch := cl.Expect(1)
+	if err := cl.SendF(BuildRequest(primitive.ProtocolVersion4, 1, KQuery, idem, tok, primitive.ConsistencyLevelQuorum)); err != nil {
+		r.Inconc("send-gate: send: " + err.Error())
+		return
+	}
+	first := 0
+	waitFor(func() bool {
+		for h := 1; h <= hosts; h++ {
+			if gates.Await(gateKey("clientconn.send.registered", h), time.Millisecond) {
+				first = h
+				return true
+			}
+		}
+		return false
+	}, 10*time.Second)
+	if first == 0 {
+		gates.ReleaseAll()
+		r.Inconc("send-gate: the request never reached the send gate")
+		return
+	}
+	armed = false
+	for h := 1; h <= hosts; h++ { // later sends (to the next host) must pass
+		if h != first {
+			gates.Release(gateKey("clientconn.send.registered", h))
+		}
+	}
+	closingBefore := gates.Hits[gateKey("clientconn.closing.flagged", first)]
+	bed.Cluster.KillPooled(false, first)
+	// the dying connection's Closing has started (it is about to notify the registered request)
+	waitFor(func() bool {
+		gates.mu.Lock()
+		defer gates.mu.Unlock()
+		return gates.Hits[gateKey("clientconn.closing.flagged", first)] > closingBefore
+	}, 5*time.Second)
+	time.Sleep(2 * time.Millisecond)
+	gates.Release(gateKey("clientconn.send.registered", first))
+	reply, werr := cl.Wait(ch, 15*time.Second)
+	// give a wrong second frame the chance to show up
+	ProgressSteps(cl, 20, 900)
+	evs := bed.Log.Snapshot()[mark:]
+	attempts := Traces(evs)[tok]
+	frames := cl.OnStream(1)
+	r.Eval(1)
+	r.Obs("send_gate_cases", 1)
+	r.NonTrivial(fmt.Sprintf("send-gate/%s/h%d/first=%d", cls, hosts, first))
+	if werr != nil || reply == nil {
+		r.Violate(mon.Violation{Signature: "C05/send-gate/no-reply/" + cls, Detail: fmt.Sprintf("request held at the send gate of host %d while that connection died got no reply: %v (attempts %s)", first, werr, describe(attempts)), Scenario: scenario})
+		return
+	}
+	ri := replyInfo(reply)
+	if len(frames) != 1 {
+		r.Violate(mon.Violation{Signature: "C05/send-gate/reply-count/" + cls, Detail: fmt.Sprintf("%d frames on the request's stream", len(frames)), Scenario: scenario})
+	}
+	// the request was never written to the first host (no arrival there); some other host answered Rows
+	reachedFirst := false
+	answeredRows := false
+	for _, a := range attempts {
+		if a.Host == first {
+			reachedFirst = true
+		}
+		if a.Outcome == "Rows" {
+			answeredRows = true
+		}
+	}
+	if reachedFirst {
+		r.Obs("send_gate_request_reached_first_host", 1) // the write won the race against the kill: nothing to judge
+		return
+	}
+	if !idem && isConnLostErr(ri) && len(attempts) == 0 {
+		// the proxy cannot tell a lost write from a lost connection: a connection-lost error is acceptable for a request that is
+		// not idempotent as long as no other host executes it
+		r.Obs("send_gate_nonidem_conn_lost_error_and_not_executed", 1)
+		return
+	}
+	if hosts >= 2 && !(ri.Kind == "Rows" && ri.Tok == tok) {
+		what := "no other host was tried"
+		if answeredRows {
+			what = "another host executed it successfully"
+		}
+		r.Violate(mon.Violation{Signature: "C05/send-gate/not-failed-over/" + cls + "/" + strings.SplitN(ri.Kind, " ", 2)[0], Detail: fmt.Sprintf("a %s request that was never written to host %d (its connection died between registration and write) was answered %s %q; %s (attempts %s)", cls, first, ri.Kind, ri.ErrMsg, what, describe(attempts)), Scenario: scenario, Witness: historyOf(evs, cl.ID, 1, tok)})
+	}
+}
+
+// sameHostRetryHostLost: the policy decides "retry on the same host" for a response that is dispatched after that host
+// was removed from the cluster (its pool is gone). The run must still terminate with exactly one reply.
+func sameHostRetryHostLost(c *Ctx, idx int, idem bool, hosts int) {
+	r := c.R
+	cls := "nonidem"
+	if idem {
+		cls = "idem"
+	}
+	if hosts < 2 {
+		hosts = 2
+	}
+	scenario := map[string]interface{}{"kind": "same-host-retry-host-lost", "idem": idem, "hosts": hosts}
+	c.Step("same-host-retry-host-lost idx=%d idem=%v hosts=%d", idx, idem, hosts)
+	bed, err := px.NewBed(px.BedConfig{Hosts: hosts, NumConns: 1, Keyspaces: []string{"ks1"}, ReconnectBase: 20 * time.Millisecond, ReconnectMax: 50 * time.Millisecond, RefreshWindow: 20 * time.Millisecond})
+	if err != nil {
+		r.Inconc("same-host-retry: cannot start bed: " + err.Error())
+		return
+	}
+	defer bed.Close()
+	gates := NewGates()
+	var armed int32
+	bed.OnHook(func(ev *px.HookEvent) {
+		if ev.Point == "clientconn.receive.dispatch" && atomic.LoadInt32(&armed) == 1 {
+			gates.Handle(ev, bed.Cluster.HostIdxOfAddr(ev.Remote))
+		}
+	})
+	scripts := NewScripts()
+	bed.Cluster.SetScript(scripts.Func())
+	cl, err := bed.ReadyClient(primitive.ProtocolVersion4, "")
+	if err != nil {
+		r.Inconc("same-host-retry: handshake: " + err.Error())
+		return
+	}
+	defer cl.Close()
+	first := 0
+	var tok string
+	var ch chan *rawcql.Frame
+	stream := int16(0)
+	mark := bed.Log.Len()
+	for try := 0; try < 6 && first <= 1; try++ {
+		// the response of a request that landed on a host other than the control connection's host (host 1) is held
+		tok = NewTok()
+		scripts.Set(tok, []model.Outcome{model.ReadTimeoutRetry, model.Rows, model.Rows})
+		var keys []string
+		for h := 1; h <= hosts; h++ {
+			keys = append(keys, gateKey("clientconn.receive.dispatch", h))
+		}
+		gates.Arm(keys...)
+		atomic.StoreInt32(&armed, 1)
+		stream++
+		ch = cl.Expect(stream)
+		if err := cl.SendF(BuildRequest(primitive.ProtocolVersion4, stream, KQuery, idem, tok, primitive.ConsistencyLevelQuorum)); err != nil {
+			r.Inconc("same-host-retry: send: " + err.Error())
+			return
+		}
+		first = 0
+		waitFor(func() bool {
+			for h := 1; h <= hosts; h++ {
+				if gates.Await(gateKey("clientconn.receive.dispatch", h), time.Millisecond) {
+					first = h
+					return true
+				}
+			}
+			return false
+		}, 10*time.Second)
+		atomic.StoreInt32(&armed, 0)
+		if first <= 1 {
+			gates.ReleaseAll()
+			if first == 1 {
+				_, _ = cl.Wait(ch, 10*time.Second)
+			}
+		}
+	}
+	if first <= 1 {
+		gates.ReleaseAll()
+		r.Inconc("same-host-retry: no response could be held on a host other than the control host")
+		return
+	}
+	for h := 1; h <= hosts; h++ {
+		if h != first {
+			gates.Release(gateKey("clientconn.receive.dispatch", h))
+		}
+	}
+	// the host leaves the cluster: peers table + topology event; wait for the observable refresh (system.peers re-queried)
+	peersBefore := 0
+	for _, x := range bed.Cluster.ControlConns() {
+		peersBefore += x.PeersAnswered()
+	}
+	bed.Cluster.SetListed(first, false)
+	ip := net.ParseIP(bed.Cluster.HostIP(first))
+	bed.Cluster.Emit(&message.TopologyChangeEvent{ChangeType: primitive.TopologyChangeTypeRemovedNode, Address: &primitive.Inet{Addr: ip, Port: int32(bed.Cluster.Port)}})
+	refreshed := waitFor(func() bool {
+		n := 0
+		for _, x := range bed.Cluster.ControlConns() {
+			n += x.PeersAnswered()
+		}
+		return n > peersBefore
+	}, 10*time.Second)
+	time.Sleep(20 * time.Millisecond) // the removal events are delivered right after the refresh query is answered
+	gates.Release(gateKey("clientconn.receive.dispatch", first))
+	reply, werr := cl.Wait(ch, 5*time.Second)
+	stepsOK := ProgressSteps(cl, 50, 900)
+	r.Eval(1)
+	r.Obs("same_host_retry_host_lost_cases", 1)
+	if !refreshed {
+		r.Obs("same_host_retry_refresh_not_observed", 1)
+	}
+	r.NonTrivial(fmt.Sprintf("same-host-retry-host-lost/%s/h%d/first=%d", cls, hosts, first))
+	attempts := Traces(bed.Log.Snapshot()[mark:])[tok]
+	if werr != nil || reply == nil {
+		if !stepsOK {
+			r.Inconc("same-host-retry: no reply and the client's OPTIONS round trips did not complete either")
+			return
+		}
+		r.Violate(mon.Violation{Signature: "C05/same-host-retry-host-lost/never-terminates/" + cls, Detail: fmt.Sprintf("the policy retried on host %d, which had just been removed from the cluster: the request was never answered although the client completed 50 further round trips (attempts %s); goroutines in request code: %s", first, describe(attempts), requestGoroutines()), Scenario: scenario, Witness: requestGoroutines()})
+		return
+	}
+	if n := len(cl.OnStream(stream)); n != 1 {
+		r.Violate(mon.Violation{Signature: "C05/same-host-retry-host-lost/reply-count/" + cls, Detail: fmt.Sprintf("%d frames on the request's stream", n), Scenario: scenario})
+	}
+	ri := replyInfo(reply)
+	r.Obs("same_host_retry_outcome:"+strings.SplitN(ri.Kind, " ", 2)[0], 1)
+}
+
+func requestGoroutines() string {
+	buf := make([]byte, 2<<20)
+	n := runtime.Stack(buf, true)
+	var keep []string
+	for _, g := range strings.Split(string(buf[:n]), "\n\n") {
+		if strings.Contains(g, "proxy.(*request).executeInternal") {
+			if len(g) > 1500 {
+				g = g[:1500]
+			}
+			keep = append(keep, g)
+		}
+	}
+	if len(keep) > 3 {
+		keep = keep[:3]
+	}
+	return strings.Join(keep, "\n\n")
 }
